@@ -181,7 +181,7 @@ def build(ctx):
 
     def ft_replay(w):
         from ..rt import containers as _ct   # the same numbers held in pandas containers with non-default row labels
-        _r = _ct.run(["from_table"])
+        _r = _ct.run(["from_table", "irrelevant_column"])
         if _r["violations"]:
             _v = _r["violations"][0]
             return {"reproduced": True, "input": _v.get("input"), "observed": _v.get("observed"), "required": _v.get("required"), "clause": _v.get("clause")}
@@ -250,4 +250,4 @@ def build(ctx):
 def bounded(ctx):
     """pandas containers (label alignment) are outside the array model of the executor: bounded family 'container independence'"""
     from ..rt import containers
-    return containers.run(['from_table'])
+    return containers.run(['from_table', 'irrelevant_column'])
